@@ -26,6 +26,8 @@ TInit == Init /\ tid \in 1..Len(Traces) /\ net = Traces[tid].net /\ l = 1 /\ pc 
 
 EvTok(e) == [k |-> e.k, tag |-> e.tag, val |-> e.val]
 EvDeps(e) == {<<e.deps[i][1], e.deps[i][2]>> : i \in 1..Len(e.deps)}
+\* IGNORE_DEPS=1 (second pass over rejected traces only) tells whether a rejection is due to provenance alone
+DepsOK(e, deps) == IOEnv.IGNORE_DEPS = "1" \/ deps = EvDeps(e)
 TermEvOf(k, s, st) == k <= Len(Tr) /\ Tr[k].ev = "term" /\ Tr[k].step = s /\ Tr[k].st = st
 
 (* an emission by the main task of a step, or by one of the jobs of an ExecuteStep *)
@@ -36,7 +38,7 @@ TEmit ==
      /\ \/ /\ outbox[s] # <<>>
            /\ Head(outbox[s]).port = Ev.port
            /\ Head(outbox[s]).tok = EvTok(Ev)
-           /\ Head(outbox[s]).deps = EvDeps(Ev)
+           /\ DepsOK(Ev, Head(outbox[s]).deps)
            /\ Emit(s)
            \* when this emission ends the step, the termination event follows in the same atomic section
            /\ IF done'[s] /\ ~done[s]
@@ -44,7 +46,7 @@ TEmit ==
                 ELSE Consume(1)
            /\ UNCHANGED xcancel
         \/ /\ \E j \in loc[s].jobs :
-                /\ Out[s][1] = Ev.port /\ Tok(j.tag, j.val) = EvTok(Ev) /\ j.deps = EvDeps(Ev)
+                /\ Out[s][1] = Ev.port /\ Tok(j.tag, j.val) = EvTok(Ev) /\ DepsOK(Ev, j.deps)
                 /\ JobDone(s, j)
            /\ Consume(1) /\ UNCHANGED xcancel
   /\ UNCHANGED pc
